@@ -301,8 +301,42 @@ def c17_connection(ch, build):
                     "steps": [dict(s, keep_ctx=True) for s in pre] + [{"op": "cmd", "conn": cn, "cmd": rng.choice(STATELESS), "script": ["busy", "ok"], "keep_ctx": True, "ctx_ms": 60000}, stepb]}
             alone = {"bmc": both["bmc"], "timeout_ms": 40, "backoff_ms": 25, "steps": pre + [stepb]}
             scns += [both, alone]; meta.append((session, {"name": "kept-context"}, b))
+    # SDR repository retrieval: a retrieval whose first round was invalidated (the repository changed under it: records
+    # erased, renumbered, replaced) returns what a retrieval on a fresh session of the FINAL repository returns - nothing read
+    # in the discarded round survives; and a second retrieval on the same session returns what a fresh one does
+    from . import c14
+    sdr_meta = []
+    for k in range(6 if ch.quick() else 40):
+        a = c14.gen_repo(rng, rng.choice([3, 4, 5]), first_zero=False)
+        keep = [dict(r) for r in a[rng.choice([1, 2]):]]
+        extra = [r for r in c14.gen_repo(rng, 2) if r["id"] not in [x["id"] for x in a] and r["id"] != 0]
+        b = keep + extra if k % 2 else [dict(r, id=r["id"] + 7, data=(bytes([(r["id"] + 7) & 255, (r["id"] + 7) >> 8]) + bytes.fromhex(r["data"])[2:]).hex()) for r in a if r["id"] + 7 < 0xffff]
+        if not b:
+            continue
+        su = hist.SUITES[k % 9]
+        ra = [{"id": r["id"], "data": r["data"]} for r in a]
+        rb = [{"id": r["id"], "data": r["data"]} for r in b]
+        pre = [hs.open_step(suites=[su])]
+        at = rng.choice([3, 4, 5, 6])
+        ev = {"before": at, "kind": "modify_sdr", "sdrs": rb, "addition": 1001, "erase": 901}
+        both = {"bmc": default_bmc(seed=480 + k, suites=[[100, su[0], su[1], su[2]]], sdrs=ra, addition=1000, erase=900), "timeout_ms": 40,
+                "steps": pre + [{"op": "sdr", "conn": "session", "ctx_ms": 12000, "events": [ev]}]}
+        alone = {"bmc": default_bmc(seed=480 + k, suites=[[100, su[0], su[1], su[2]]], sdrs=rb, addition=1001, erase=901), "timeout_ms": 40,
+                 "steps": pre + [{"op": "sdr", "conn": "session", "ctx_ms": 12000}]}
+        twice = {"bmc": alone["bmc"], "timeout_ms": 40, "steps": pre + [{"op": "sdr", "conn": "session", "ctx_ms": 12000}, {"op": "sdr", "conn": "session", "ctx_ms": 12000}]}
+        sdr_meta.append((len(scns), both, "disturbed-round")); scns += [both, alone]; meta.append(None)
+        sdr_meta.append((len(scns), twice, "second-retrieval")); scns += [twice, alone]; meta.append(None)
     outs = run_scenarios(scns)
-    for k, (session, a, b) in enumerate(meta):
+    for (i, scn, what) in sdr_meta:
+        rb_, ra_ = outs[i]["steps"][-1], outs[i + 1]["steps"][-1]
+        desc = {"kind": "connection-reuse", "conn": "session", "a": what, "b": "sdr"}
+        ch.note_case("reuse-sdr", "%s|%s" % (what, scn["bmc"]["sdrs"]))
+        if rb_.get("panic"):
+            ch.violation(dict(desc, kind="panic"), {"scenario": scn, "panic": rb_["panic"]})
+        elif ra_["err"] == "nil" and rb_["err"] == "nil" and rb_.get("value") != ra_.get("value"):
+            ch.violation(desc, {"scenario": scn, "what": "SDR retrieval (%s) returns a different set than a retrieval of the same repository on a fresh session" % what,
+                                "after": (rb_.get("value") or "")[:600], "fresh": (ra_.get("value") or "")[:600]})
+    for k, (session, a, b) in [(k, m) for k, m in enumerate(meta) if m is not None]:
         ob, oa = outs[2 * k], outs[2 * k + 1]
         rb, ra = ob["steps"][-1], oa["steps"][-1]
         desc = {"kind": "connection-reuse", "conn": "session" if session else "sessionless", "a": a["name"], "b": b["name"]}
